@@ -42,9 +42,9 @@ def run(ctx):
                         "a harness process death is attributed to the call in flight (intent file)"]
     cases = txwire.model_cases(ctx, want_tx=False)
     ctx.cov["tlc_generated_cases"] = len(cases)
-    cases = txwire.sample_cases(ctx, cases, ctx.pick(2500, 40000))
+    cases = txwire.sample_cases(ctx, cases, ctx.pick(2500, 150000))
     ctx.cov["tlc_generated_cases_replayed"] = len(cases)
-    args = ctx.pick(["-n", "100", "-crafted", "60", "-corpus", "20"], ["-n", "2500", "-crafted", "2500", "-corpus", "1000"])
+    args = ctx.pick(["-n", "100", "-crafted", "60", "-corpus", "20"], ["-n", "10000", "-crafted", "10000", "-corpus", "4000"])
     events, rejects = txwire.collect(ctx, args, cases)
     handle(ctx, events, rejects)
     crafted = [e for e in events if e.get("src") == "crafted"]
